@@ -333,7 +333,9 @@ def do_replay(prop, path):
     if obj.get('kind') == 'no-failing-input-found' or n == 0:
         log('replay file names no failing input: ' + json.dumps(obj.get('broken', obj.get('cases', []))[:3])[:2000])
         return 0
-    rc, out, _ = sh([os.path.join(BUILD, 'harness'), prop.harness, '-replay', tmp], timeout=600)
+    foreign = sorted(set(c.get('entry') for c in obj.get('cases', []) if c.get('input') and c.get('entry') and c.get('entry') not in prop.entries))
+    hname = foreign[0] if foreign else prop.harness      # scenario lanes live in another harness (e.g. c19)
+    rc, out, _ = sh([os.path.join(BUILD, 'harness'), hname, '-replay', tmp], timeout=600)
     impl = out.strip().split('\n')
     i = 0
     for c in obj.get('cases', []):
@@ -342,8 +344,11 @@ def do_replay(prop, path):
         e = c.get('entry', prop.entries[0])
         one = os.path.join(BUILD, 'run', 'one.in')
         open(one, 'w').write(' '.join(map(str, c['input'])) + '\n')
-        ok, _ = run_model(e, one, one + '.out')
-        mo = open(one + '.out').read().strip() if ok else '?'
+        if e in prop.entries:
+            ok, _ = run_model(e, one, one + '.out')
+            mo = open(one + '.out').read().strip() if ok else '?'
+        else:
+            mo = '(monitor scenario: expected outcome 1 ...)'
         log('case %s %s\n  input : %s\n  impl  : %s\n  model : %s\n  note  : %s' % (
             e, c.get('comment', ''), c['input'], impl[i] if i < len(impl) else '?', mo, c.get('detail', c.get('kind', ''))))
         i += 1
